@@ -11,8 +11,24 @@ pub fn generate(thorough: bool, seed: u64, em: &mut Emitter) {
     for i in 0..n {
         let mut rc = r.fork();
         let r = &mut rc;
-        let claims = gen::gen_object(r, 3, 3, 1);
-        let marks = gen::gen_marking(r, &claims, true);
+        let (claims, marks) = gen::claims_and_marking(r, i, 3, 3);
+        // claims of the credential that carry the names of KB-JWT claims (never disclosable here): the KB-JWT the
+        // holder builds takes nothing from them - in particular its iat is the current time even when the
+        // credential itself is post-dated
+        let mut claims = claims;
+        if i % 3 == 1 {
+            let now = std::time::SystemTime::now().duration_since(std::time::UNIX_EPOCH).unwrap().as_secs() as i64;
+            let m = claims.as_object_mut().unwrap();
+            if !marks.iter().any(|p| matches!(p.first(), Some(gen::Tok::Key(k)) if ["iat", "nonce", "aud", "sd_hash", "nbf"].contains(&k.as_str()))) {
+                m.insert("iat".to_string(), r.pick(&[json!(now + 300), json!(now + 86_400 * 3650), json!(now - 1000), json!(0), json!("soon"), json!(1.5e12)]).clone());
+                if r.chance(1, 2) {
+                    m.insert("nonce".to_string(), json!("credential-nonce"));
+                    m.insert("aud".to_string(), json!("credential-audience"));
+                    m.insert("sd_hash".to_string(), json!("AAAA"));
+                    m.insert("nbf".to_string(), json!(now - 5));
+                }
+            }
+        }
         let (token, tok, clear) = match make_token(r, &claims, &marks, true, i % 3 == 0) {
             Some(x) => x,
             None => continue,
